@@ -110,4 +110,39 @@ theorem error_is_inert (cfg : Spec.Seq.Cfg) (a : Arr) (op : Spec.Seq.Op) (m : Me
     (h1 : (a.step cfg op m).1.st = some st) (h2 : st ≠ .ok) : (a.step cfg op m).2.1 = a :=
   (Arr.step_spec cfg a op m hinv hlive hsort).2.2.2.2.2.2 st h1 h2
 
+/-- **`out_of_range_rejected`**, the range table in one statement: for every index in `Nat`,
+`add_at` accepts exactly `[0,size]` (unless blocked by the allocator or the capacity limit), and
+`replace_at`, `remove_at`, `get_at`, both arguments of `swap_at`, and the end of a sub-range accept
+exactly `[0,size)` -/
+theorem out_of_range_rejected (a : Arr) (x i j : Nat) (m : Mem) (hinv : a.Inv) :
+    (a.size < i → (a.addAt x i m).1 = .errOutOfRange) ∧
+    ((a.addAt x i m).1 = .ok → i ≤ a.size) ∧
+    (a.size ≤ i → (a.replaceAt x i m).1 ≠ .ok ∧ (a.removeAt i m).1 ≠ .ok ∧ (a.getAt i m).1 ≠ .ok ∧
+      (a.swapAt i j m).1 ≠ .ok ∧ (a.swapAt j i m).1 ≠ .ok ∧ (a.subarray j i m).1 = .errInvalidRange) := by
+  refine ⟨fun h => by rw [Arr.addAt_range a x i m h], fun hok => ?_, fun h => ?_⟩
+  · apply Decidable.byContradiction
+    intro hn
+    rw [Arr.addAt_range a x i m (by omega)] at hok; simp at hok
+  · have hn : ¬ i < a.size := by omega
+    refine ⟨fun hk => hn ((replace_at_range a x i m hinv).1.1 hk), fun hk => hn ((remove_at_range a i m hinv).1.1 hk),
+      fun hk => hn ((get_at_range a i m hinv).1.1 hk), fun hk => hn ((swap_at_range a i j m hinv).1.1 hk).1,
+      fun hk => hn ((swap_at_range a j i m hinv).1.1 hk).2, (subarray_range a j i m hinv (fun hr => hn hr.2)).1⟩
+
+/-- **`error_is_inert`** for iterator calls: a status other than `CC_OK` leaves array and cursor unchanged
+(for `CC_ITER_END` and `CC_ERR_ALLOC` too) -/
+theorem iter_error_is_inert (a : Arr) (it : ArrIter) (c : Spec.Seq.Cursor) (op : Spec.Seq.IterOp) (m : Mem)
+    (hinv : a.Inv) (hlive : 0 < m.live) (hs : Arr.Sim a it c) (st : Stat)
+    (h1 : (a.iterStep it op m).1.st = some st) (h2 : st ≠ .ok) :
+    (a.iterStep it op m).2.1 = a ∧ (a.iterStep it op m).2.2.1 = it :=
+  (Arr.iterStep_sim a it c op m hinv hlive hs).2.2.2.2.2.2 st h1 h2
+
+/-- zip mutators before the first yield or after a removal: rejected, both arrays and the cursor unchanged -/
+theorem zip_error_is_inert (a1 a2 : Arr) (it : ArrIter) (z : Spec.Seq.ZipCursor) (x y : Nat) (m : Mem)
+    (h1 : a1.Inv) (h2 : a2.Inv) (hs : Arr.ZSim a1 a2 it z) :
+    ((Arr.zipRemove a1 a2 it m).1 ≠ .ok → (Arr.zipRemove a1 a2 it m).2.2.1 = a1 ∧
+      (Arr.zipRemove a1 a2 it m).2.2.2.1 = a2 ∧ (Arr.zipRemove a1 a2 it m).2.2.2.2.1 = it) ∧
+    ((Arr.zipReplace a1 a2 it x y m).1 ≠ .ok → (Arr.zipReplace a1 a2 it x y m).2.2.1 = a1 ∧
+      (Arr.zipReplace a1 a2 it x y m).2.2.2.1 = a2) :=
+  ⟨(Arr.zipRemove_sim a1 a2 it z m h1 h2 hs).2.2.2.2.2.2.2.2, (Arr.zipReplace_sim a1 a2 it z x y m h1 h2 hs).2.2.2.2.2.2.2.2⟩
+
 end CC.Properties.C16Array
